@@ -782,7 +782,7 @@ package kvql
 //@   ensures[C01, C03] rows: err == nil && 0 <= j && j < len(ret) ==> shas(val(ret[j].Key)) && val(ret[j].Value) == sget(val(ret[j].Key)) && passes(p.Filter, val(ret[j].Key), val(ret[j].Value)) && member(p.Keys, len(p.Keys), val(ret[j].Key))
 //@   ensures[C01, C03] end: err == nil && len(ret) < PlanBatchSize ==> p.idx == p.numKeys
 //@   ensures[C18] oneperkey: nops - old(nops) == p.idx - old(p.idx)
-//@   ensures[C05] nokeys: err == nil && ctx.EnableCache && ctx.FieldChunkKeyCaches != nil ==> (forall q B :: !has(ctx.FieldChunkKeyCaches, q))
+//@   ensures[C03, C05] nokeys: err == nil && ctx.EnableCache && ctx.FieldChunkKeyCaches != nil ==> (forall q B :: !has(ctx.FieldChunkKeyCaches, q))
 //@   ensures[C13] readonly: nmut == old(nmut)
 //@   ensures[C13] surfaced: (failed ==> err == lastErr) && (err == nil ==> !failed)
 //@   loop 0
